@@ -40,7 +40,7 @@ def generate_ops(rng, cfg, spec, tier) -> list[dict]:
     def restart(tgt):
         sd = rng.random() < 0.4
         op = {"op": "restart", "target": tgt, "codec": rng.choice(["direct", "netcdf", "netcdf", "zarr", "zarr"]),
-              "save_data": sd}
+              "save_data": sd, "second_rebuild": rng.random() < 0.35}
         if not sd:
             dataless[tgt] = True
         return op
@@ -108,7 +108,7 @@ def _opk(op):
     if k == "query":
         return f"q{op['target']}:{_qname(op['q'])}"
     if k == "restart":
-        return f"restart:{op['target']}:{op['codec']}:{'data' if op['save_data'] else 'nodata'}"
+        return f"restart:{op['target']}:{op['codec']}:{'data' if op['save_data'] else 'nodata'}" + ("x2" if op.get("second_rebuild") else "")
     if k == "save":
         return f"save:{op['target']}:{op['codec']}"
     if k == "compute":
@@ -226,6 +226,11 @@ def execute(cfg: dict, *, stop_at_first=True, trace=False) -> RunResult:
                     violate("R0", f"put:{out.exc_type}", f"writing the serialised {tgt} through codec {op['codec']} raised {out.exc_type}: {out.exc_msg[:200]}", op)
                 else:
                     out = oracle.capture(lambda: type(obj).deserialize(store_.get()))
+                    if out.ok and op.get("second_rebuild"):
+                        # the stored state is read a second time (two loads of one file; two rebuilds from one
+                        # tree object on the direct route): the second rebuild is the one that is kept
+                        out = oracle.capture(lambda: type(obj).deserialize(store_.get()))
+                        cov["probes"].add("second rebuild from the same stored state")
                     if not out.ok:
                         violate("R0", f"get:{out.exc_type}", f"rebuilding {tgt} from the {op['codec']} store raised {out.exc_type}: {out.exc_msg[:200]}", op)
                 if not res.violations:
